@@ -889,10 +889,41 @@ def eval_atom(a, env):
     raise ValueError("cannot evaluate atom %r" % (a,))
 
 
+def _breakpoints(p, acc=None):
+    """[(constant, symbols of the other arguments)] for every max/min application with a constant argument: the two sides of
+    such a clamp are distinguishable only by sample points on both sides of the constant"""
+    acc = [] if acc is None else acc
+
+    def atom(a):
+        if not isinstance(a, tuple) or not a:
+            return
+        if a[0] == "app" and a[1] in ("max", "min"):
+            args = [poly_from_key(k) for k in a[2:]]
+            consts = [x.const_value() for x in args if x.is_const()]
+            scope = set()
+            for x in args:
+                if not x.is_const():
+                    scope |= x.symbols()
+            for c in consts:
+                if c != 0 and scope:
+                    acc.append((float(c), scope))
+        if a[0] in ("app", "par"):
+            for k in a[2:] if a[0] == "app" else a[1:]:
+                if isinstance(k, tuple):
+                    try:
+                        _breakpoints(poly_from_key(k), acc)
+                    except Exception:
+                        pass
+    for a in p.atoms():
+        atom(a)
+    return acc
+
+
 def witness_differs(p, q, rng=None, npoints=48):
     """search a numeric point where p and q differ; returns the point (dict) or None"""
     rng = rng or random.Random(0)
     syms = sorted(p.symbols() | q.symbols(), key=repr)
+    bps = _breakpoints(p) + _breakpoints(q)
     tried = 0
     for k in range(npoints * 4):
         if tried >= npoints:
@@ -903,6 +934,13 @@ def witness_differs(p, q, rng=None, npoints=48):
             if k % 3 == 1 and rng.random() < 0.3:
                 v = -v
             env[s] = v
+        if bps and k % 2 == 0:
+            # probe both sides of a clamp constant: the symbols inside the clamp get the magnitude of the constant
+            c, scope = bps[(k // 2) % len(bps)]
+            f = rng.choice((0.03, 0.3, 3.0, 30.0))
+            for s in scope:
+                if s in env:
+                    env[s] = abs(c) * f * (1 if env[s] > 0 else -1)
         if s_pi in env:
             env[s_pi] = math.pi
         try:
@@ -910,8 +948,9 @@ def witness_differs(p, q, rng=None, npoints=48):
         except (ValueError, ZeroDivisionError, OverflowError):
             continue
         tried += 1
-        if abs(a - b) > 1e-9 * max(1.0, abs(a), abs(b)):
-            return {fmt_atom(s): round(v, 6) for s, v in env.items()}
+        # relative comparison (values around a clamp constant are tiny: an absolute floor would hide the difference)
+        if abs(a - b) > 1e-7 * max(abs(a), abs(b)) + 1e-200:
+            return {fmt_atom(s): float("%.6g" % v) for s, v in env.items()}
     if tried == 0:
         return {"note": "no evaluable sample point found"}
     return None
